@@ -1284,3 +1284,27 @@ package regexp2
 //@     invariant 0 <= startAt && startAt <= searchAt && startAt <= len(input) && MinBytes(input, startAt, (*minRequiredLength))
 //@     invariant forall k int {mark(k - startAt)} :: startAt <= k && k < searchAt && SubAt(input, k, (*literal)) ==> !BackClear(input, k, (*distance), startAt)
 //@     decreases len(input) - searchAt + 1
+
+//@ spec func PrefOccS(s string, k int, prefix string, ic bool) bool = ite(ic, helpers.AFEqS(s, k, prefix), SubAt(s, k, prefix))
+//@ func stringIndexPrefixFilter$1(input string, startAt int) (candidateByteIndex int, ok bool)
+//@   props C02 C03 C10
+//@   free minRequiredLength *int, ignoreCase *bool, prefix *string
+//@   requires len(*prefix) > 0 && mark((*prefix)[0])
+//@   ensures[hit]  ok ==> startAt <= candidateByteIndex && PrefOccS(input, candidateByteIndex, *prefix, *ignoreCase) &&
+//@                    forall k int {mark(k - startAt)} :: startAt <= k && k < candidateByteIndex ==> !PrefOccS(input, k, *prefix, *ignoreCase)
+//@   ensures[miss] !ok && MinBytes(input, startAt, *minRequiredLength) ==> forall k int {mark(k - startAt)} :: startAt <= k ==> !PrefOccS(input, k, *prefix, *ignoreCase)
+
+//@ func stringFixedDistanceCharFilter$1(input string, startAt int) (candidateByteIndex int, ok bool)
+//@   props C02 C03 C10
+//@   free minRequiredLength *int, ch *rune, distance *int
+//@   requires 0 <= *distance
+//@   ensures[hit]   ok ==> exists i int {Back(input, i, *distance)} :: startAt <= i && EncAt(input, i, *ch) && BackClear(input, i, *distance, startAt) && candidateByteIndex == Back(input, i, *distance) &&
+//@                     MinBytes(input, candidateByteIndex, *minRequiredLength) && forall k int {EncAt(input, k, *ch)} :: startAt <= k && k < i && EncAt(input, k, *ch) ==> !BackClear(input, k, *distance, startAt)
+//@   ensures[miss]  !ok && MinBytes(input, startAt, *minRequiredLength) ==>
+//@                     (forall k int {EncAt(input, k, *ch)} :: startAt <= k && EncAt(input, k, *ch) ==> !BackClear(input, k, *distance, startAt)) ||
+//@                     (exists i int {Back(input, i, *distance)} :: startAt <= i && EncAt(input, i, *ch) && BackClear(input, i, *distance, startAt) && !MinBytes(input, Back(input, i, *distance), *minRequiredLength) &&
+//@                         forall k int {EncAt(input, k, *ch)} :: startAt <= k && k < i && EncAt(input, k, *ch) ==> !BackClear(input, k, *distance, startAt))
+//@   loop 0:
+//@     invariant 0 <= startAt && startAt <= searchAt && searchAt <= len(input) && MinBytes(input, startAt, *minRequiredLength)
+//@     invariant forall k int {EncAt(input, k, *ch)} :: startAt <= k && k < searchAt && EncAt(input, k, *ch) ==> !BackClear(input, k, *distance, startAt)
+//@     decreases len(input) - searchAt
